@@ -22,8 +22,8 @@ namespace dsim { extern thread_local int t_bypass; }
 namespace smc {
 using namespace vh;
 
-enum { INSERT = 0, ERASE = 1, CONTAINS = 2, FIND = 3, UPDATE = 4, UPSERT_NOINS = 5, EXTRACT = 6, GET = 7, EXTRACT_MIN = 8, EXTRACT_MAX = 9, NKIND = 10 };
-static const char* const opnames[] = {"insert", "erase", "contains", "find", "update", "update_noinsert", "extract", "get", "extract_min", "extract_max", nullptr};
+enum { INSERT = 0, ERASE = 1, CONTAINS = 2, FIND = 3, UPDATE = 4, UPSERT_NOINS = 5, EXTRACT = 6, GET = 7, EXTRACT_MIN = 8, EXTRACT_MAX = 9, NKIND = 10, CLEAR = 10 /* only generated for the single-threaded C20 programs: clear() is not atomic */ };
+static const char* const opnames[] = {"insert", "erase", "contains", "find", "update", "update_noinsert", "extract", "get", "extract_min", "extract_max", "clear", nullptr};
 #define CAP(k) (1u << (k))
 static const unsigned CAPS_BASIC = CAP(INSERT) | CAP(ERASE) | CAP(CONTAINS) | CAP(FIND) | CAP(UPDATE) | CAP(UPSERT_NOINS);
 static const unsigned CAPS_FULL = CAPS_BASIC | CAP(EXTRACT) | CAP(GET);
@@ -55,7 +55,7 @@ struct Hash { template <class A> size_t operator()(A const& a) const { return mk
 struct Hash2 { template <class A> size_t operator()(A const& a) const { return mkhash2(key_of(a)); } };
 
 // ---- result of one abstract operation and the recording functors
-struct R { bool ok = false; long inst = -1; bool inserted = false; long key = 0; int calls = 0; };
+struct R { bool ok = false; long inst = -1; bool inserted = false; long key = 0; int calls = 0; bool drop = false; /* the result puts no constraint on the model: leave the op out of the checked history */ };
 struct InsF { R* r; template <class V> void operator()(V& item) const { ++r->calls; r->inst = inst_of(item); } };
 struct UpdF {
     R* r;
@@ -295,6 +295,7 @@ inline void gen_program(Rng& r, Program& p, int tier, const GenCfg& g0) {
         for (int k = 0; k < nops && total < total_cap; k++, total++) {
             if (undo) { int ph = (uphase + k) & 3; p.add(t, ph < 2 ? INSERT : ERASE, (ph & 1) ? ub : ua, 0, 0); continue; }
             int kind = pick_kind(r, g.caps, profile);
+            if (c20 && r.chance(40)) { p.add(t, CLEAR, 0, 0, 0); continue; }
             long key = 1 + (r.chance(800) ? r.below(hot) : r.below(hot + cold));
             int form = kind == INSERT ? r.below(g.insert_forms) : kind == ERASE ? r.below(g.erase_forms) : 0;
             p.add(t, kind, key, 0, form);
@@ -303,8 +304,13 @@ inline void gen_program(Rng& r, Program& p, int tier, const GenCfg& g0) {
 }
 
 // ---- execution
+template <class A> auto after_smr_of(Ctx& c, int) -> decltype(A::after_smr(c), void()) { A::after_smr(c); }
+template <class A> void after_smr_of(Ctx&, long) {}
+template <class A> auto clear_of(A& a, int) -> decltype(a.clear(), void()) { a.clear(); }
+template <class A> void clear_of(A& a, long) { a.s->clear(); }
 template <class A> R apply(A& a, const Op& op, long newinst) {
     switch (op.kind) {
+    case CLEAR: { R r; clear_of(a, 0); r.ok = true; return r; }
     case INSERT: return a.insert(op.a, newinst, (int)op.c);
     case ERASE: return a.erase(op.a, (int)op.c);
     case CONTAINS: return a.contains(op.a);
@@ -323,6 +329,7 @@ template <class A> void record(Ctx& ctx, A& a, int thread, Op op) {
     int h = ctx.begin_op(thread, op);
     R r = apply(a, op, newinst);
     ctx.end_op(h, r.ok, r.inst, (op.kind == EXTRACT_MIN || op.kind == EXTRACT_MAX) ? r.key : (long)r.inserted);
+    if (r.drop) ctx.hist[h].done = false;
     if (r.calls < 0) ctx.fail("functor-call-count", "%s(%ld): the user functor was not called exactly as documented (once on success, never on failure)", opnames[op.kind], op.a);
 }
 
@@ -367,6 +374,7 @@ template <class A> void run(Ctx& ctx) {
         }
         cds::threading::Manager::detachThread();
     }
+    after_smr_of<A>(ctx, 0);   // intrusive subjects: disposer accounting once container and SMR singleton are gone
 }
 template <class A> void check(Ctx& ctx) {
     // relaxed oracle for extract_min / extract_max (DESIGN.md §6): emptiness and minimality against keys definitely present throughout the call
@@ -390,6 +398,7 @@ template <class A> void check(Ctx& ctx) {
                 bool on_k;
                 if (rm.kind == ERASE || rm.kind == EXTRACT) on_k = rm.a == k && (!rm.done || rm.r);
                 else if (rm.kind == EXTRACT_MIN || rm.kind == EXTRACT_MAX) on_k = !rm.done || (rm.r && rm.r3 == k);
+                else if (rm.kind == CLEAR) on_k = true;
                 else on_k = false;
                 if (!on_k) continue;
                 uint64_t rret = rm.done ? rm.ret : ~0ULL;
